@@ -140,7 +140,7 @@ class Gen16:
         body = self.block(depth + 1, env_names, budget)
         if ints and r.random() < 0.6:
             v = r.choice(ints)
-            form = r.choice(["mod2", "gt1", "eq0", "not"])
+            form = r.choice(["mod2", "gt1", "eq0", "not", "minus2", "neg"])
             self.nontrivial = True
             return ("if-var", v, form, body)
         t = r.randint(0, 1)
@@ -154,6 +154,8 @@ IF_FORMS = {
     "gt1": ("gt($%s, 1)", lambda x: x > 1),
     "eq0": ("eq($%s, 0)", lambda x: x == 0),
     "not": ("{{not($%s)}}", lambda x: x == 0),
+    "minus2": ("{{$%s - 2}}", lambda x: x - 2 != 0),          # any non-zero value is true, negative ones included
+    "neg": ("{{0 - $%s}}", lambda x: x != 0),
 }
 
 
